@@ -154,6 +154,20 @@ class ErrorContext(Protocol):
         raise NotImplementedError
 
 
+def _split_source_lines(contents: str) -> list[str]:
+    """Split source code into lines the way the tokenizer numbers them.
+
+    str.splitlines() also breaks at form feeds and other separators (\\x0b, \\x0c,
+    \\x1c-\\x1e, \\x85, \\u2028, \\u2029), which do not start a new line in
+    Python source, so line numbers from the AST would point at the wrong line.
+
+    """
+    lines = re.split(r"\r\n|\r|\n", contents)
+    if lines and not lines[-1]:
+        lines.pop()
+    return [line + "\n" for line in lines]
+
+
 class BaseNodeVisitor(ast.NodeVisitor):
     """Base Visitor class that can run on all files in a/ and show detailed error messages."""
 
@@ -222,7 +236,7 @@ class BaseNodeVisitor(ast.NodeVisitor):
         changes = collections.defaultdict(list)
         with qcore.override(self.__class__, "_changes_for_fixer", changes):
             result = self.check()
-        lines = [line + "\n" for line in self.contents.splitlines()]
+        lines = _split_source_lines(self.contents)
         if self.filename in changes:
             lines = self._apply_changes_to_lines(changes[self.filename], lines)
         return result, "".join(lines)
@@ -234,7 +248,7 @@ class BaseNodeVisitor(ast.NodeVisitor):
 
     @qcore.caching.cached_per_instance()
     def _lines(self) -> list[str]:
-        return [line + "\n" for line in self.contents.splitlines()]
+        return _split_source_lines(self.contents)
 
     @qcore.caching.cached_per_instance()
     def has_file_level_ignore(
